@@ -90,6 +90,16 @@ type Frame struct {
 	// range-over-map iteration state: Range instr -> (keys array, n, pos)
 	iters     map[ssa.Value]*iterState
 	panicking bool
+	seq       *seqCalls // statically known closures being run "concurrently" (PerformConcurrently)
+}
+
+type seqCalls struct {
+	fns      []*FnVal
+	idx      int
+	startNow Term
+	maxNow   Term
+	retTo    ssa.Value
+	mode     int
 }
 
 type iterState struct {
@@ -116,6 +126,10 @@ func (f *Frame) clone() *Frame {
 	g.names = make(map[string]ssa.Value, len(f.names))
 	for k, v := range f.names {
 		g.names[k] = v
+	}
+	if f.seq != nil {
+		c := *f.seq
+		g.seq = &c
 	}
 	g.iters = make(map[ssa.Value]*iterState, len(f.iters))
 	for k, v := range f.iters {
